@@ -501,33 +501,36 @@ def replay_round(run, tr, label, st):
                              "state (head, tail, dgq_pending, dgq_thread_pool_size, dsema_value)",
                              "detail": {"label": label, "model": got, "library": exp}})
         return True, mism
-    # not replayed: is some pending action refused by the model although the values it observed are the model's values?
+    # not replayed: the next recorded action of every thread where the replay stopped, oldest first, each with the value the
+    # library observed and the value of the model state (equal values on the oldest ones point to a missing or wrongly
+    # guarded branch of the global model; a semaphore wait that returned with no post pending in the model to a wake-up
+    # the model does not have)
     words = {(1, run.off_head): res["head"], (1, run.off_tail): res["tail"], (1, run.off_pend): res["pend"] & 0xFFFFFFFF,
              (1, run.off_pool): res["pool"] & 0xFFFFFFFF, (2, 0): res["sval"] & MED}
     bythr = {thr: evs for (thr, kind, evs) in threads}
-    pend = res["pending_next"]
-    head_seq = None
-    refused = []
-    for (thr, i, code) in pend:
+    nxt = []
+    for (thr, i, code) in res["pending_next"]:
         evs = bythr.get(thr, [])
-        if code != 0 or i >= len(evs):
+        if i >= len(evs):
             continue
         e = evs[i]
-        if head_seq is None:
-            head_seq = e.seq
-        if e.seq > head_seq + 24:
-            continue
+        d = {"thread": thr, "event": e.brief(), "stamp": e.seq}
+        if code != 0:
+            d["before_it"] = "hidden step %d (1 plain read of dq_items_tail, 2 of do_next, 3 of dsema_value, 4 pthread_create)" % code
         if e.kind in (1, 3, 4, 5, 6, 7) and (e.obj, e.off) in words:
             mask = 0xFFFFFFFF if e.off in (run.off_pend, run.off_pool) and e.obj == 1 else MED
-            if (e.a & mask) == (words[(e.obj, e.off)] & mask) and not (e.kind in (37, 36)):
-                refused.append({"thread": thr, "event": e.brief(), "stamp": e.seq})
-        elif e.kind in (2, 100, 101, 102, 103):
-            refused.append({"thread": thr, "event": e.brief(), "stamp": e.seq})
-    if refused:
-        mism.append({"what": "whole-run replay on the global model RootQ.gstep: the model refuses an action of the recorded run although "
-                     "the values the library observed are the values of the model state (a missing or wrongly guarded branch of the "
-                     "global model)", "detail": {"label": label, "first_unmatched": refused[:4], "done": res["done"], "left": res["left"],
-                                                  "state": {k: res[k] for k in REPLAY_FIELDS[5:]}}})
+            d["observed"], d["model"] = e.a & mask, words[(e.obj, e.off)] & mask
+        elif e.kind in (36, 37):
+            d["model_kernel_semaphore_count"] = res["ksem"]
+            if res["ksem"] == 0 and (e.kind == 36 or e.b == 0):
+                d["note"] = "the wait returned as woken, no post is pending in the model"
+        nxt.append(d)
+    nxt.sort(key=lambda d: d["stamp"])
+    mism.append({"what": "whole-run replay on the global model RootQ.gstep: no order of the recorded actions is accepted by the model "
+                 "beyond this point (the untrusted order search is incomplete: reported only when three runs of the scenario in a "
+                 "row end like this); first_unmatched = the next recorded action of each thread, oldest first",
+                 "detail": {"label": label, "first_unmatched": nxt[:6], "done": res["done"], "left": res["left"],
+                            "state": {k: res[k] for k in REPLAY_FIELDS[5:]}}})
     return False, mism
 
 
@@ -594,9 +597,6 @@ def correspond(ctx):
             mism += rm
             if done_it:
                 rp_ok += 1
-            elif not rm:
-                mism.append({"what": "whole-run replay on the global model RootQ.gstep: no order of the recorded actions was found in "
-                             "three runs of the scenario", "detail": {"label": label}})
         if run.b is not None:
             blocked.append({"label": label, "waiters": run.b[0], "pool_before": run.b[1], "pool_min": run.b[2],
                             "worker_threads": run.b[3], "elapsed_ms": run.b[4], "finished": run.b[5]})
